@@ -502,6 +502,15 @@ func (ts *TermStore) FPBin(op string, a, b *Term) *Term {
 			return ts.FP(math.Max(x, y))
 		}
 	}
+	if (op == "fp.min" || op == "fp.max") && a.op == "to_fp_s" && b.op == "to_fp_s" && a.args[0].sort == b.args[0].sort {
+		// int -> float64 (RNE) is monotone, so min/max commute with it exactly
+		x, y := a.args[0], b.args[0]
+		lt := ts.BVCmp("bvslt", x, y)
+		if op == "fp.min" {
+			return ts.IntToFP(ts.Ite(lt, x, y), true)
+		}
+		return ts.IntToFP(ts.Ite(lt, y, x), true)
+	}
 	return ts.mk(op, sortFP, 0, "", 0, 0, a, b)
 }
 
